@@ -266,3 +266,89 @@ def queue_shape(ctx, rule):
                'register_operation does not append (func, args, in_tx) to '
                'the queue of the current thread', ctx.loc(rf))
     return 10
+
+
+def lock_primitives(ctx, rule):
+    """named_lock(name) inserts a NamedLock row with that (unique) name
+    immediately - not at the next flush - before its body and deletes that
+    very row after it; acquire_lock expires the session cache and reads the
+    entity FOR UPDATE."""
+    prog = ctx.prog
+    f = prog.func(API + '.named_lock')
+    cfg = ctx.cfg(f)
+    ys = [n for n in cfg.nodes if n.kind == 'stmt' and
+          isinstance(n.ast, ast.Expr) and isinstance(n.ast.value, ast.Yield)]
+    cr = U.calls_in(cfg, 'create_named_lock')
+    dl = U.calls_in(cfg, 'delete_named_lock')
+    if len(ys) != 1 or len(cr) != 1 or len(dl) != 1:
+        raise AnalysisError('named_lock: shape not recognised')
+    idvar = [dotted(x.targets[0]) for x in own_nodes(f.node)
+             if isinstance(x, ast.Assign) and x.value is cr[0][1]]
+    rule.check(cfg.dominates(cr[0][0], ys[0]) and
+               not U.guard_atoms(cfg, cr[0][0]) and
+               [norm(a) for a in cr[0][1].args] == [f.params[0]],
+               ctx.construct(f, extra='lock row created before the body'),
+               'the body of named_lock(name) runs without the lock row for '
+               'that name having been inserted', ctx.loc(f))
+    rule.check(cfg.dominates(ys[0], dl[0][0]) and bool(idvar) and
+               dl[0][1].args and norm(dl[0][1].args[0]) == idvar[0] and
+               not U.guard_atoms(cfg, dl[0][0]),
+               ctx.construct(f, extra='that row deleted after the body'),
+               'the lock row that was created is not deleted after the '
+               'body: the next holder waits until the transaction ends / '
+               'another holder\'s row is deleted', ctx.loc(f))
+    cf = prog.func(API + '.create_named_lock')
+    ccfg = ctx.cfg(cf)
+    ex = [(n, c) for n, c in ccfg.calls(
+        lambda c: U.call_name(c) == 'execute')]
+    fl = [n for n, c in ccfg.calls(lambda c: U.call_name(c) == 'flush')]
+    ok = len(ex) == 1 and not U.guard_atoms(ccfg, ex[0][0])
+    if ok:
+        stmt = U.canon_expr(cf.node, ex[0][1].args[0], 4)
+        ok = U.phas(stmt, 'models.NamedLock.__table__.insert()') and \
+            any(isinstance(x, ast.Call) and U.call_name(x) == 'values' and
+                any(k.arg == 'name' and norm(k.value) == cf.params[0]
+                    for k in x.keywords) for x in ast.walk(stmt))
+        # issued now: a flush follows on every path
+        ok = ok and ccfg.must_pass(ex[0][0], fl)
+        rets = [x for x in own_nodes(cf.node) if isinstance(x, ast.Return)]
+        idn = [k.value for x in ast.walk(stmt) if isinstance(x, ast.Call)
+               and U.call_name(x) == 'values' for k in x.keywords
+               if k.arg == 'id']
+        ok = ok and bool(idn) and bool(rets) and all(
+            norm(U.canon_expr(cf.node, r.value)) == norm(idn[0])
+            for r in rets)
+    rule.check(ok, ctx.construct(cf, extra='immediate insert of (id, name)'),
+               'create_named_lock does not insert a NamedLock row with the '
+               'given name straight away (execute + flush) and return its '
+               'id: two holders of the same name are not serialised',
+               ctx.loc(cf))
+    df = prog.func(API + '.delete_named_lock')
+    dcfg = ctx.cfg(df)
+    dex = [(n, c) for n, c in dcfg.calls(
+        lambda c: U.call_name(c) == 'execute')]
+    okd = len(dex) == 1
+    if okd:
+        stmt = U.canon_expr(df.node, dex[0][1].args[0], 4)
+        okd = U.phas(stmt, '___.delete().where(___.c.id == %s)'
+                     % df.params[0]) or U.phas(
+            stmt, '___.where(___.c.id == %s)' % df.params[0])
+    rule.check(okd, ctx.construct(df, extra='deletes the row with that id'),
+               'delete_named_lock does not delete exactly the row whose id '
+               'it was given', ctx.loc(df))
+    af = prog.func(API + '.acquire_lock')
+    acfg = ctx.cfg(af)
+    exp = U.calls_in(acfg, 'expire_all')
+    le = U.calls_in(acfg, '_lock_entity')
+    lf = prog.func(API + '._lock_entity')
+    okl = len(le) == 1 and bool(exp) and acfg.dominates(exp[0][0], le[0][0]) \
+        and [norm(a) for a in le[0][1].args] == af.params[:2] and \
+        isinstance(le[0][0].ast, ast.Return) and any(
+            isinstance(x, ast.Call) and U.call_name(x) == 'with_for_update'
+            for x in own_nodes(lf.node)) and any(
+            U.phas(x, '___.filter(%s.id == %s)' % tuple(lf.params[:2]))
+            for x in own_nodes(lf.node))
+    rule.check(okl, ctx.construct(af, extra='fresh read FOR UPDATE'),
+               'acquire_lock does not expire cached objects and then select '
+               'the entity with that id FOR UPDATE', ctx.loc(af))
+    return 5
